@@ -2106,9 +2106,13 @@ class SpreadSkill(Output):
             lower = np.nan*np.zeros(len(x), 'float')
             upper = np.nan*np.zeros(len(x), 'float')
             for i in range(1, len(self.thresholds)):
+                above = spread > self.thresholds[i - 1]
+                if i == 1:
+                    # The first bin includes its lower edge
+                    above = spread >= self.thresholds[i - 1]
                 I = np.where((np.isnan(spread) == 0) &
                              (np.isnan(skill) == 0) &
-                             (spread > self.thresholds[i - 1]) &
+                             above &
                              (spread <= self.thresholds[i]))[0]
                 if len(I) > 0:
                     x[i] = np.mean(spread[I])
